@@ -400,204 +400,55 @@ let rec str_body strict_cp fuel l =
                                                (Coq_xI (Coq_xI (Coq_xO
                                                (Coq_xI (Coq_xI (Coq_xO
                                                (Coq_xI Coq_xH)))))))))))))))))
-                                        then (match r2 with
-                                              | [] ->
-                                                if strict_cp
-                                                then None
-                                                else (match str_body
-                                                              strict_cp f r2 with
-                                                      | Some p ->
-                                                        let (p0, rest) = p in
-                                                        let (d, _) = p0 in
-                                                        Some ((d, true), rest)
-                                                      | None -> None)
-                                              | n :: l3 ->
-                                                (match n with
-                                                 | N0 ->
-                                                   if strict_cp
-                                                   then None
-                                                   else (match str_body
-                                                                 strict_cp f
-                                                                 r2 with
-                                                         | Some p ->
-                                                           let (p0, rest) = p
-                                                           in
-                                                           let (d, _) = p0 in
-                                                           Some ((d, true),
-                                                           rest)
-                                                         | None -> None)
-                                                 | Npos p ->
-                                                   (match p with
-                                                    | Coq_xO p0 ->
-                                                      (match p0 with
-                                                       | Coq_xO p1 ->
-                                                         (match p1 with
-                                                          | Coq_xI p2 ->
-                                                            (match p2 with
-                                                             | Coq_xI p3 ->
-                                                               (match p3 with
-                                                                | Coq_xI p4 ->
-                                                                  (match p4 with
-                                                                   | Coq_xO p5 ->
-                                                                    (match p5 with
-                                                                    | Coq_xH ->
-                                                                    (match l3 with
-                                                                    | [] ->
-                                                                    if strict_cp
-                                                                    then None
-                                                                    else 
-                                                                    (match 
-                                                                    str_body
-                                                                    strict_cp
-                                                                    f r2 with
-                                                                    | Some p6 ->
-                                                                    let (
-                                                                    p7, rest) =
-                                                                    p6
-                                                                    in
-                                                                    let (
-                                                                    d, _) = p7
-                                                                    in
-                                                                    Some ((d,
-                                                                    true),
-                                                                    rest)
-                                                                    | None ->
-                                                                    None)
-                                                                    | n0 :: l4 ->
-                                                                    (match n0 with
-                                                                    | N0 ->
-                                                                    if strict_cp
-                                                                    then None
-                                                                    else 
-                                                                    (match 
-                                                                    str_body
-                                                                    strict_cp
-                                                                    f r2 with
-                                                                    | Some p6 ->
-                                                                    let (
-                                                                    p7, rest) =
-                                                                    p6
-                                                                    in
-                                                                    let (
-                                                                    d, _) = p7
-                                                                    in
-                                                                    Some ((d,
-                                                                    true),
-                                                                    rest)
-                                                                    | None ->
-                                                                    None)
-                                                                    | Npos p6 ->
-                                                                    (match p6 with
-                                                                    | Coq_xI p7 ->
-                                                                    (match p7 with
-                                                                    | Coq_xO p8 ->
-                                                                    (match p8 with
-                                                                    | Coq_xI p9 ->
-                                                                    (match p9 with
-                                                                    | Coq_xO p10 ->
-                                                                    (match p10 with
-                                                                    | Coq_xI p11 ->
-                                                                    (match p11 with
-                                                                    | Coq_xI p12 ->
-                                                                    (match p12 with
-                                                                    | Coq_xH ->
-                                                                    (match l4 with
-                                                                    | [] ->
-                                                                    if strict_cp
-                                                                    then None
-                                                                    else 
-                                                                    (match 
-                                                                    str_body
-                                                                    strict_cp
-                                                                    f r2 with
-                                                                    | Some p13 ->
-                                                                    let (
-                                                                    p14, rest) =
-                                                                    p13
-                                                                    in
-                                                                    let (
-                                                                    d, _) =
-                                                                    p14
-                                                                    in
-                                                                    Some ((d,
-                                                                    true),
-                                                                    rest)
-                                                                    | None ->
-                                                                    None)
-                                                                    | g1 :: l5 ->
-                                                                    (match l5 with
-                                                                    | [] ->
-                                                                    if strict_cp
-                                                                    then None
-                                                                    else 
-                                                                    (match 
-                                                                    str_body
-                                                                    strict_cp
-                                                                    f r2 with
-                                                                    | Some p13 ->
-                                                                    let (
-                                                                    p14, rest) =
-                                                                    p13
-                                                                    in
-                                                                    let (
-                                                                    d, _) =
-                                                                    p14
-                                                                    in
-                                                                    Some ((d,
-                                                                    true),
-                                                                    rest)
-                                                                    | None ->
-                                                                    None)
-                                                                    | g2 :: l6 ->
-                                                                    (match l6 with
-                                                                    | [] ->
-                                                                    if strict_cp
-                                                                    then None
-                                                                    else 
-                                                                    (match 
-                                                                    str_body
-                                                                    strict_cp
-                                                                    f r2 with
-                                                                    | Some p13 ->
-                                                                    let (
-                                                                    p14, rest) =
-                                                                    p13
-                                                                    in
-                                                                    let (
-                                                                    d, _) =
-                                                                    p14
-                                                                    in
-                                                                    Some ((d,
-                                                                    true),
-                                                                    rest)
-                                                                    | None ->
-                                                                    None)
-                                                                    | g3 :: l7 ->
-                                                                    (match l7 with
-                                                                    | [] ->
-                                                                    if strict_cp
-                                                                    then None
-                                                                    else 
-                                                                    (match 
-                                                                    str_body
-                                                                    strict_cp
-                                                                    f r2 with
-                                                                    | Some p13 ->
-                                                                    let (
-                                                                    p14, rest) =
-                                                                    p13
-                                                                    in
-                                                                    let (
-                                                                    d, _) =
-                                                                    p14
-                                                                    in
-                                                                    Some ((d,
-                                                                    true),
-                                                                    rest)
-                                                                    | None ->
-                                                                    None)
-                                                                    | g4 :: r3 ->
-                                                                    (match 
+                                        then let lone =
+                                               if strict_cp
+                                               then None
+                                               else (match str_body strict_cp
+                                                             f r2 with
+                                                     | Some p ->
+                                                       let (p0, rest) = p in
+                                                       let (d, _) = p0 in
+                                                       Some ((d, true), rest)
+                                                     | None -> None)
+                                             in
+                                             (match r2 with
+                                              | [] -> lone
+                                              | q1 :: l3 ->
+                                                (match l3 with
+                                                 | [] -> lone
+                                                 | q2 :: l4 ->
+                                                   (match l4 with
+                                                    | [] -> lone
+                                                    | g1 :: l5 ->
+                                                      (match l5 with
+                                                       | [] -> lone
+                                                       | g2 :: l6 ->
+                                                         (match l6 with
+                                                          | [] -> lone
+                                                          | g3 :: l7 ->
+                                                            (match l7 with
+                                                             | [] -> lone
+                                                             | g4 :: r3 ->
+                                                               if (&&)
+                                                                    (N.eqb q1
+                                                                    (Npos
+                                                                    (Coq_xO
+                                                                    (Coq_xO
+                                                                    (Coq_xI
+                                                                    (Coq_xI
+                                                                    (Coq_xI
+                                                                    (Coq_xO
+                                                                    Coq_xH))))))))
+                                                                    (N.eqb q2
+                                                                    (Npos
+                                                                    (Coq_xI
+                                                                    (Coq_xO
+                                                                    (Coq_xI
+                                                                    (Coq_xO
+                                                                    (Coq_xI
+                                                                    (Coq_xI
+                                                                    Coq_xH))))))))
+                                                               then (match 
                                                                     hex4 g1
                                                                     g2 g3 g4 with
                                                                     | Some lo ->
@@ -645,14 +496,13 @@ let rec str_body strict_cp fuel l =
                                                                     str_body
                                                                     strict_cp
                                                                     f r3 with
-                                                                    | Some p13 ->
+                                                                    | Some p ->
                                                                     let (
-                                                                    p14, rest) =
-                                                                    p13
+                                                                    p0, rest) =
+                                                                    p
                                                                     in
                                                                     let (
-                                                                    d, _) =
-                                                                    p14
+                                                                    d, _) = p0
                                                                     in
                                                                     Some
                                                                     ((
@@ -732,338 +582,10 @@ let rec str_body strict_cp fuel l =
                                                                     rest)
                                                                     | None ->
                                                                     None)
-                                                                    else 
-                                                                    if strict_cp
-                                                                    then None
-                                                                    else 
-                                                                    (match 
-                                                                    str_body
-                                                                    strict_cp
-                                                                    f r2 with
-                                                                    | Some p13 ->
-                                                                    let (
-                                                                    p14, rest) =
-                                                                    p13
-                                                                    in
-                                                                    let (
-                                                                    d, _) =
-                                                                    p14
-                                                                    in
-                                                                    Some ((d,
-                                                                    true),
-                                                                    rest)
+                                                                    else lone
                                                                     | None ->
-                                                                    None)
-                                                                    | None ->
-                                                                    if strict_cp
-                                                                    then None
-                                                                    else 
-                                                                    (match 
-                                                                    str_body
-                                                                    strict_cp
-                                                                    f r2 with
-                                                                    | Some p13 ->
-                                                                    let (
-                                                                    p14, rest) =
-                                                                    p13
-                                                                    in
-                                                                    let (
-                                                                    d, _) =
-                                                                    p14
-                                                                    in
-                                                                    Some ((d,
-                                                                    true),
-                                                                    rest)
-                                                                    | None ->
-                                                                    None))))))
-                                                                    | _ ->
-                                                                    if strict_cp
-                                                                    then None
-                                                                    else 
-                                                                    (match 
-                                                                    str_body
-                                                                    strict_cp
-                                                                    f r2 with
-                                                                    | Some p13 ->
-                                                                    let (
-                                                                    p14, rest) =
-                                                                    p13
-                                                                    in
-                                                                    let (
-                                                                    d, _) =
-                                                                    p14
-                                                                    in
-                                                                    Some ((d,
-                                                                    true),
-                                                                    rest)
-                                                                    | None ->
-                                                                    None))
-                                                                    | _ ->
-                                                                    if strict_cp
-                                                                    then None
-                                                                    else 
-                                                                    (match 
-                                                                    str_body
-                                                                    strict_cp
-                                                                    f r2 with
-                                                                    | Some p12 ->
-                                                                    let (
-                                                                    p13, rest) =
-                                                                    p12
-                                                                    in
-                                                                    let (
-                                                                    d, _) =
-                                                                    p13
-                                                                    in
-                                                                    Some ((d,
-                                                                    true),
-                                                                    rest)
-                                                                    | None ->
-                                                                    None))
-                                                                    | _ ->
-                                                                    if strict_cp
-                                                                    then None
-                                                                    else 
-                                                                    (match 
-                                                                    str_body
-                                                                    strict_cp
-                                                                    f r2 with
-                                                                    | Some p11 ->
-                                                                    let (
-                                                                    p12, rest) =
-                                                                    p11
-                                                                    in
-                                                                    let (
-                                                                    d, _) =
-                                                                    p12
-                                                                    in
-                                                                    Some ((d,
-                                                                    true),
-                                                                    rest)
-                                                                    | None ->
-                                                                    None))
-                                                                    | _ ->
-                                                                    if strict_cp
-                                                                    then None
-                                                                    else 
-                                                                    (match 
-                                                                    str_body
-                                                                    strict_cp
-                                                                    f r2 with
-                                                                    | Some p10 ->
-                                                                    let (
-                                                                    p11, rest) =
-                                                                    p10
-                                                                    in
-                                                                    let (
-                                                                    d, _) =
-                                                                    p11
-                                                                    in
-                                                                    Some ((d,
-                                                                    true),
-                                                                    rest)
-                                                                    | None ->
-                                                                    None))
-                                                                    | _ ->
-                                                                    if strict_cp
-                                                                    then None
-                                                                    else 
-                                                                    (match 
-                                                                    str_body
-                                                                    strict_cp
-                                                                    f r2 with
-                                                                    | Some p9 ->
-                                                                    let (
-                                                                    p10, rest) =
-                                                                    p9
-                                                                    in
-                                                                    let (
-                                                                    d, _) =
-                                                                    p10
-                                                                    in
-                                                                    Some ((d,
-                                                                    true),
-                                                                    rest)
-                                                                    | None ->
-                                                                    None))
-                                                                    | _ ->
-                                                                    if strict_cp
-                                                                    then None
-                                                                    else 
-                                                                    (match 
-                                                                    str_body
-                                                                    strict_cp
-                                                                    f r2 with
-                                                                    | Some p8 ->
-                                                                    let (
-                                                                    p9, rest) =
-                                                                    p8
-                                                                    in
-                                                                    let (
-                                                                    d, _) = p9
-                                                                    in
-                                                                    Some ((d,
-                                                                    true),
-                                                                    rest)
-                                                                    | None ->
-                                                                    None))
-                                                                    | _ ->
-                                                                    if strict_cp
-                                                                    then None
-                                                                    else 
-                                                                    (match 
-                                                                    str_body
-                                                                    strict_cp
-                                                                    f r2 with
-                                                                    | Some p7 ->
-                                                                    let (
-                                                                    p8, rest) =
-                                                                    p7
-                                                                    in
-                                                                    let (
-                                                                    d, _) = p8
-                                                                    in
-                                                                    Some ((d,
-                                                                    true),
-                                                                    rest)
-                                                                    | None ->
-                                                                    None))))
-                                                                    | _ ->
-                                                                    if strict_cp
-                                                                    then None
-                                                                    else 
-                                                                    (match 
-                                                                    str_body
-                                                                    strict_cp
-                                                                    f r2 with
-                                                                    | Some p6 ->
-                                                                    let (
-                                                                    p7, rest) =
-                                                                    p6
-                                                                    in
-                                                                    let (
-                                                                    d, _) = p7
-                                                                    in
-                                                                    Some ((d,
-                                                                    true),
-                                                                    rest)
-                                                                    | None ->
-                                                                    None))
-                                                                   | _ ->
-                                                                    if strict_cp
-                                                                    then None
-                                                                    else 
-                                                                    (match 
-                                                                    str_body
-                                                                    strict_cp
-                                                                    f r2 with
-                                                                    | Some p5 ->
-                                                                    let (
-                                                                    p6, rest) =
-                                                                    p5
-                                                                    in
-                                                                    let (
-                                                                    d, _) = p6
-                                                                    in
-                                                                    Some ((d,
-                                                                    true),
-                                                                    rest)
-                                                                    | None ->
-                                                                    None))
-                                                                | _ ->
-                                                                  if strict_cp
-                                                                  then None
-                                                                  else 
-                                                                    (match 
-                                                                    str_body
-                                                                    strict_cp
-                                                                    f r2 with
-                                                                    | Some p4 ->
-                                                                    let (
-                                                                    p5, rest) =
-                                                                    p4
-                                                                    in
-                                                                    let (
-                                                                    d, _) = p5
-                                                                    in
-                                                                    Some ((d,
-                                                                    true),
-                                                                    rest)
-                                                                    | None ->
-                                                                    None))
-                                                             | _ ->
-                                                               if strict_cp
-                                                               then None
-                                                               else (match 
-                                                                    str_body
-                                                                    strict_cp
-                                                                    f r2 with
-                                                                    | Some p3 ->
-                                                                    let (
-                                                                    p4, rest) =
-                                                                    p3
-                                                                    in
-                                                                    let (
-                                                                    d, _) = p4
-                                                                    in
-                                                                    Some ((d,
-                                                                    true),
-                                                                    rest)
-                                                                    | None ->
-                                                                    None))
-                                                          | _ ->
-                                                            if strict_cp
-                                                            then None
-                                                            else (match 
-                                                                  str_body
-                                                                    strict_cp
-                                                                    f r2 with
-                                                                  | Some p2 ->
-                                                                    let (
-                                                                    p3, rest) =
-                                                                    p2
-                                                                    in
-                                                                    let (
-                                                                    d, _) = p3
-                                                                    in
-                                                                    Some ((d,
-                                                                    true),
-                                                                    rest)
-                                                                  | None ->
-                                                                    None))
-                                                       | _ ->
-                                                         if strict_cp
-                                                         then None
-                                                         else (match 
-                                                               str_body
-                                                                 strict_cp f
-                                                                 r2 with
-                                                               | Some p1 ->
-                                                                 let (
-                                                                   p2, rest) =
-                                                                   p1
-                                                                 in
-                                                                 let (
-                                                                   d, _) = p2
-                                                                 in
-                                                                 Some ((d,
-                                                                 true), rest)
-                                                               | None -> None))
-                                                    | _ ->
-                                                      if strict_cp
-                                                      then None
-                                                      else (match str_body
-                                                                    strict_cp
-                                                                    f r2 with
-                                                            | Some p0 ->
-                                                              let (p1, rest) =
-                                                                p0
-                                                              in
-                                                              let (d, _) = p1
-                                                              in
-                                                              Some ((d,
-                                                              true), rest)
-                                                            | None -> None))))
+                                                                    lone)
+                                                               else lone))))))
                                         else if (&&)
                                                   (N.leb (Npos (Coq_xO
                                                     (Coq_xO (Coq_xO (Coq_xO
